@@ -42,6 +42,28 @@ example : ValidCt ⟨⟨0, 3⟩, ⟨0, 2 ^ 64 - 1⟩⟩ ∧ MachineCt ⟨⟨0, 3
   refine ⟨⟨by decide, by decide⟩, ⟨by decide, by decide⟩, ?_⟩
   simp [treeSize, weight, weightCs, cellsWeight, TCell.weight]
 
+/-- **Flex factors from JSON.**  `Flex::from_json_value` keeps a factor exactly when it is finite and
+positive; every other number (zero, negative, non-finite) makes the child a non-flex child.  The totality
+theorem above holds for all factors anyway; positivity is what makes the rational model coincide with
+the `f64` computation on the grid used by the correspondence. -/
+theorem C10_json_factor (f : JFactor) (q : Q) :
+    f.filter = some q ↔ f = .finite false q ∧ 0 < q.num ∧ 0 < q.den := by
+  cases f with
+  | nonFinite => simp [JFactor.filter]
+  | finite neg q' =>
+    cases neg
+    · simp only [JFactor.filter, Q.pos]
+      by_cases hp : 0 < q'.num ∧ 0 < q'.den
+      · simp only [hp, and_self, decide_true, if_true, Option.some.injEq, JFactor.finite.injEq, true_and]
+        constructor
+        · intro h; subst h; exact ⟨rfl, hp⟩
+        · intro h; exact h.1
+      · simp only [hp, decide_false, Bool.false_eq_true, if_false, JFactor.finite.injEq, true_and]
+        constructor
+        · intro h; cases h
+        · intro h; obtain ⟨h1, h2⟩ := h; subst h1; exact absurd h2 hp
+    · simp [JFactor.filter]
+
 /-- the views whose reported size the property bounds: text (`Text`, `str`), flex, container, image,
 glyph, fill (`RGBA`, `()`), and the leaves that clamp a fixed size (surface view, ascii image, probe) -/
 inductive Reports : V → Prop
@@ -64,7 +86,7 @@ theorem C10_within (ctx : Ctx) (v : V) (hr : Reports v) (ct : Ct) (hv : ValidCt 
 example : ValidCt ⟨⟨1, 0⟩, ⟨1, 7⟩⟩ ∧
     (V.flex .ver .spaceBetween [.mk none .center false (.fixed 1 3 9)]).layout ⟨true, ⟨37, 15⟩⟩ ⟨⟨1, 0⟩, ⟨1, 7⟩⟩
       = .ok (.node ⟨0, 0⟩ ⟨1, 7⟩ 0 [.node ⟨0, 0⟩ ⟨1, 7⟩ 0 []]) := by
-  refine ⟨⟨by decide, by decide⟩, by decide⟩
+  refine ⟨⟨by decide, by decide⟩, by rfl⟩
 
 /-- `o` is an offset of a cell inside the window of the surface `s` (`Shape::offset` of an in-range
 row and column) -/
@@ -77,5 +99,82 @@ writer does inside the window it holds is C07 / C09.) -/
 theorem C10_contained (ctx : Ctx) (v : V) (s : Shape) (t : LT) (ps : List Paint)
     (h : v.render ctx s t = .ok ps) : ∀ p ∈ ps, ∀ o, InWindow p.shape o → InWindow s o :=
   fun p hp o ho => render_sub ctx v s t ps h p hp o ho
+
+/-- **C10, paints where recorded (first part): every writer is handed exactly a recorded rectangle.**
+`root` is any surface, `W` the rectangle of it that `render` is given (`winShape root W`, `none` = an
+empty surface), `t` any layout tree.  `clip W pos size` is plain rectangle arithmetic: the rectangle
+`[pos, pos + size)` relative to the origin of `W`, intersected with `W`.  `walk t W π` follows the child
+indices `π` from `t` and composes `clip` along the way: it yields the layout node reached and the part of
+its rectangle that is visible.  Every leaf view and every frame border writes through *exactly* the
+surface covering that visible rectangle of some layout node; a face fill (container face, flex child
+face) stays inside one. -/
+theorem C10_paints_where_recorded (ctx : Ctx) (v : V) (root : Shape)
+    (hroot : root.height < 2 ^ 64 ∧ root.width < 2 ^ 64) (W : Option Rect)
+    (hW : ∀ w, W = some w → w.r0 < w.r1 ∧ w.c0 < w.c1 ∧ w.r1 ≤ root.height ∧ w.c1 ≤ root.width)
+    (t : LT) (ps : List Paint) (h : v.render ctx (winShape root W) t = .ok ps) :
+    ∀ p ∈ ps, ∃ (π : List Nat) (n : LT) (W' : Option Rect), walk t W π = some (n, W') ∧
+      (if p.kind = .erase then ∀ o, InWindow p.shape o → InWindow (winShape root W') o
+       else p.shape = winShape root W') :=
+  fun p hp => render_recorded root hroot.1 hroot.2 ctx v W hW t ps h p hp
+
+/-- `Layout::apply_to` itself is that clipping step (the lemma the theorem above composes along the path) -/
+theorem C10_apply_to_clips (root : Shape) (hroot : root.height < 2 ^ 64 ∧ root.width < 2 ^ 64) (W : Option Rect)
+    (hW : ∀ w, W = some w → w.r0 < w.r1 ∧ w.c0 < w.c1 ∧ w.r1 ≤ root.height ∧ w.c1 ≤ root.width) (t : LT) :
+    applyTo t (winShape root W) = winShape root (clip W t.pos t.size) :=
+  applyTo_clip root hroot.1 hroot.2 W hW t
+
+example : clip (some ⟨2, 3, 7, 13⟩) ⟨4, 8⟩ ⟨5, 5⟩ = some ⟨6, 11, 7, 13⟩ ∧ clip (some ⟨2, 3, 7, 13⟩) ⟨5, 0⟩ ⟨5, 5⟩ = none := by
+  decide
+
+/-- **C10, hit testing.**  (a) For every layout tree and every position of a surface cell, `find_path`
+returns the node, then the chain of the *first* child whose rectangle `[pos, pos + size)` covers the
+position, for the position relative to that child — and stops where no child covers it (`HitChain`).
+(b) If the cell `(R, C)` of the root surface lies in the visible rectangle of a node reached by the path
+`π` (where a view was handed its surface, previous theorem), then every node along `π` covers the
+position hit testing is asked for (`Along`); so the chain of (a) runs through the drawn view unless an
+earlier sibling covers the same cell. -/
+theorem C10_find_path (t : LT) :
+    (∀ q : Pos, q.row + 1 < 2 ^ 64 ∧ q.col + 1 < 2 ^ 64 → HitChain t q (t.findPath q)) ∧
+    (∀ (π : List Nat) (n : LT) (w w' : Rect) (R C : Nat), walk t (some w) π = some (n, some w') →
+      w'.r0 ≤ R → R < w'.r1 → w'.c0 ≤ C → C < w'.c1 →
+      Along t ⟨R - (w.r0 + t.pos.row), C - (w.c0 + t.pos.col)⟩ π) :=
+  ⟨fun q hq => findPath_chain t q hq, fun π n w w' R C => walk_along π t n w w' R C⟩
+
+/-- **C10, hit testing identifies the views drawn.**  Lay any tree out under any constraint, render the
+result into the rectangle `w` of any root surface.  Every view (and frame border) then writes through
+exactly the visible rectangle `W'` of a layout node reached by some path `π` (previous theorem), and for
+every cell `(R, C)` of that rectangle, `find_path` — asked for the cell in the coordinates of the root
+layout — returns the layouts along `π` first: root, …, the node of the view drawn there (`pathNodes`),
+followed only by what that node's own children contribute.  The proof uses that the library never lays
+siblings out on top of each other (`layout_tidy`: flex children are placed at non-decreasing, saturating
+major offsets; every other view has at most one child). -/
+theorem C10_hit_testing (ctx : Ctx) (v : V) (ct : Ct) (t : LT) (hl : v.layout ctx ct = .ok t)
+    (root : Shape) (hroot : root.height < 2 ^ 64 ∧ root.width < 2 ^ 64) (w : Rect)
+    (hw : w.r0 < w.r1 ∧ w.c0 < w.c1 ∧ w.r1 ≤ root.height ∧ w.c1 ≤ root.width)
+    (ps : List Paint) (hr : v.render ctx (winShape root (some w)) t = .ok ps) :
+    ∀ p ∈ ps, p.kind ≠ .erase → ∃ (π : List Nat) (n : LT) (W' : Option Rect),
+      walk t (some w) π = some (n, W') ∧ p.shape = winShape root W' ∧
+      ∀ (w' : Rect) (R C : Nat), W' = some w' → w'.r0 ≤ R → R < w'.r1 → w'.c0 ≤ C → C < w'.c1 →
+        ∃ rest, t.findPath ⟨R - (w.r0 + t.pos.row), C - (w.c0 + t.pos.col)⟩ = pathNodes t π ++ rest := by
+  intro p hp hk
+  have hW : ∀ w0, some w = some w0 → w0.Inside root := by
+    intro w0 e; injection e with e; subst e; exact hw
+  obtain ⟨π, n, W', hwalk, hshape⟩ := render_recorded root hroot.1 hroot.2 ctx v (some w) hW t ps hr p hp
+  simp only [hk, if_false] at hshape
+  refine ⟨π, n, W', hwalk, hshape, ?_⟩
+  intro w' R C hW' h1 h2 h3 h4
+  subst hW'
+  have hin := walk_inside π t n (some w) w' hW hwalk
+  have halong := walk_along π t n w w' R C hwalk h1 h2 h3 h4
+  have hU : U = 2 ^ 64 := rfl
+  have hq : PosOk ⟨R - (w.r0 + t.pos.row), C - (w.c0 + t.pos.col)⟩ := by
+    obtain ⟨_, _, a, b⟩ := hin
+    constructor <;> (simp only; omega)
+  exact tidy_hit_prefix π t _ (layout_tidy ctx v ct t hl) hq halong
+
+example : (V.flex .hor .start [.mk none .start false (.fixed 1 1 2), .mk none .start false (.fixed 2 1 3)]).layout ⟨true, ⟨37, 15⟩⟩ ⟨⟨0, 0⟩, ⟨1, 9⟩⟩
+      = .ok (.node ⟨0, 0⟩ ⟨1, 5⟩ 0 [.node ⟨0, 0⟩ ⟨1, 2⟩ 0 [], .node ⟨0, 2⟩ ⟨1, 3⟩ 0 []]) ∧
+    (LT.node ⟨0, 0⟩ ⟨1, 5⟩ 0 [.node ⟨0, 0⟩ ⟨1, 2⟩ 0 [], .node ⟨0, 2⟩ ⟨1, 3⟩ 0 []]).findPath ⟨0, 2⟩ = [(⟨0, 0⟩, ⟨1, 5⟩), (⟨0, 2⟩, ⟨1, 3⟩)] := by
+  refine ⟨by rfl, by decide⟩
 
 end SurfProofs.C10
